@@ -26,8 +26,13 @@ class Harness:
     """One harness of a check.  fn(w) runs one path; it must behave identically in symbolic and
     concrete mode given the same choices / values."""
 
-    def __init__(self, name, fn, bounds=None, goals=(), doc="", timeout_ms=10000, setup=None):
+    def __init__(self, name, fn, bounds=None, goals=(), doc="", timeout_ms=10000, setup=None,
+                 expected_cuts=()):
         self.name = name
+        # reasons (substrings) for which a path may legitimately end outside the stated bounds;
+        # cuts requested by the harness itself (World.cut) are always expected.  Any other cut
+        # means the code under analysis left the engine's model: the verdict is INCONCLUSIVE.
+        self.expected_cuts = tuple(expected_cuts)
         self.fn = fn
         self.bounds = bounds or {}
         self.goals = list(goals)
@@ -617,6 +622,12 @@ def run_check(prop, harnesses, level_text="", tier=None, seed=None, budget_s=Non
                      if set(r.harness.goals) - r.goals}
     n_inc = sum(r.n_inconclusive for r in results)
     exhausted = all(r.exhausted for r in results)
+    odd_cuts = {}
+    for r in results:
+        for reason, n in r.cuts.items():
+            if reason.startswith("harness: ") or any(e in reason for e in r.harness.expected_cuts):
+                continue
+            odd_cuts[f"{r.harness.name}: {reason}"] = n
     for sig, kf in sorted(known_seen.items()):
         print(f"KNOWN-FINDING: property={prop} {kf.get('what', sig)}")
     if new_violations:
@@ -626,7 +637,7 @@ def run_check(prop, harnesses, level_text="", tier=None, seed=None, budget_s=Non
             print(f"  signature: {sig}  ({n} path(s))")
     elif harness_errors or sample_fail:
         verdict = HARNESS_ERROR
-    elif n_inc or not exhausted or missing_goals or ss["disagree"] or ss["errors"]:
+    elif n_inc or not exhausted or missing_goals or ss["disagree"] or ss["errors"] or odd_cuts:
         verdict = INCONCLUSIVE
     for he in harness_errors[:5]:
         print(f"HARNESS-ERROR: counterexample did not reproduce natively: {he['harness']}:"
@@ -636,6 +647,9 @@ def run_check(prop, harnesses, level_text="", tier=None, seed=None, budget_s=Non
         print(f"HARNESS-ERROR: model of a held path fails natively: {sf['harness']}: {sf['why']}")
         print("   sample:", json.dumps(sf["sample"], default=str)[:600])
     if verdict == INCONCLUSIVE:
+        for k, n in sorted(odd_cuts.items()):
+            print(f"INCONCLUSIVE: {n} path(s) left the engine's model (not an expected bound of "
+                  f"this harness): {k}")
         if n_inc:
             kinds = {}
             for r in results:
